@@ -102,7 +102,10 @@ func (w *World) monitorStoreIntegrity() {
 			w.Violate("C15", "stored-value-corrupt", "the value saved under %#x at step %d does not follow packet ‖ LE64(seq) ‖ BE32(FNV-1a): %x", e.N, e.Step, trunc(e.B))
 			continue
 		}
-		if at, dup := seen[seq]; dup && e.R == "" {
+		if e.R != "" {
+			continue // a failed Save stored nothing: its number may be used again
+		}
+		if at, dup := seen[seq]; dup {
 			w.Violate("C15", "storage-sequence-reused", "storage sequence number %d used for the save of %#x at step %d and again at step %d", seq, e.N, at, e.Step)
 		}
 		seen[seq] = e.Step
